@@ -36,9 +36,12 @@ func isLogCall(e ast.Expr) bool {
 	if !ok {
 		return false
 	}
-	if id, ok := s.X.(*ast.Ident); ok {
-		n := strings.ToLower(id.Name)
+	switch x := s.X.(type) {
+	case *ast.Ident:
+		n := strings.ToLower(x.Name)
 		return n == "logger" || n == "log" || n == "logfields"
+	case *ast.SelectorExpr: // r.logger.Info(...)
+		return strings.ToLower(x.Sel.Name) == "logger"
 	}
 	return false
 }
